@@ -220,6 +220,8 @@ func (p *pathRun) concretize(fr *frame, s symInt, what string) int64 {
 			max = t.Args[0].Sort.W / 8
 		} else if t.Op == "mod" && t.Args[1].IsConst() {
 			max = (t.Args[1].Val.BitLen() + 7) / 8
+		} else if t.Op == "app" && len(t.Name) > 2 && (t.Name[:2] == "X_" || t.Name[:2] == "Y_") {
+			max = 32 // a coordinate: below the 256-bit field prime
 		}
 		for n := max; n >= 0; n-- {
 			var cond *smt.Term
